@@ -106,7 +106,7 @@ theorem dPoll_ok (d : DState) (b : Bool) (h : (dPoll d).1 = .ok b) :
         | fdErr e =>
           simp only at h
           by_cases hp : d.pipe = true
-          · rw [if_pos hp]; simp [dPollLoop]
+          · simp only [if_pos hp]; simp [dPollLoop]
           · rw [if_neg hp] at h; exact absurd h (hfe _ _ _)
         | fdNeg => simp at h
         | ready => simp [dPollLoop]
